@@ -27,7 +27,10 @@ def get_deterministic_sign_multiplier(data, axis: int):
     """
     max_vals = np.max(data, axis=axis)
     min_vals = np.min(data, axis=axis)
-    sign_multiplier = np.where(np.abs(max_vals) >= np.abs(min_vals), 1, -1)
+    # The entry of largest magnitude is `max_vals` unless `min_vals` is larger in magnitude;
+    # it is negative in the latter case and also when all entries are negative and equal
+    is_negative = (np.abs(min_vals) > np.abs(max_vals)) | (max_vals < 0)
+    sign_multiplier = np.where(is_negative, -1, 1)
     return sign_multiplier
 
 
